@@ -71,6 +71,7 @@ func runC18(c *an.Ctx) {
 	})
 	c.Floor("BOUND", 6)
 	eventLogSizeBound(c)
+	eventLogLineLimit(c)
 	eventLogEvictionOrder(c)
 }
 
@@ -676,4 +677,64 @@ func eventLogEvictionOrder(c *an.Ctx) {
 	}
 	c.Count("ORDER", n)
 	c.Floor("ORDER", 2)
+}
+
+// eventLogLineLimit (TRUNC): every line that is inserted into the log map is
+// at most logMaxLineBytes long (lines are cut to the per-line limit).
+func eventLogLineLimit(c *an.Ctx) {
+	p := c.P
+	n := 0
+	for _, fn := range eventLogScope(p) {
+		fi := p.Info(fn)
+		for _, b := range fn.Blocks {
+			for _, in := range b.Instrs {
+				mu, ok := in.(*ssa.MapUpdate)
+				if !ok {
+					continue
+				}
+				if f, ok := fi.RefClass(mu.Map).FieldOf("EventLogger"); !ok || f != "logs" {
+					continue
+				}
+				n++
+				keyT := fi.Term(mu.Key)
+				var limit *an.Term
+				for _, bb := range fn.Blocks {
+					for _, i2 := range bb.Instrs {
+						if ld, ok := i2.(*ssa.UnOp); ok {
+							if f, ok := fi.RefClass(ld.X).FieldOf("EventLogger"); ok && f == "logMaxLineBytes" {
+								limit = fi.Term(ld)
+							}
+						}
+					}
+				}
+				ok2 := false
+				desc := "no load of logMaxLineBytes in the function"
+				if limit != nil {
+					s := fi.SysFor(mu)
+					ok2 = s.ProveDiffLE(an.LenTerm(keyT), limit, 0)
+					desc = "len(key) " + s.Describe(an.LenTerm(keyT)) + "; limit " + short(limit.Key())
+					// the line is usually a phi of the formatted line (when it is short enough) and its cut prefix:
+					// prove the bound on each incoming edge
+					if ph, isPhi := keyT.Val.(*ssa.Phi); !ok2 && isPhi && keyT.K == an.KPhi {
+						all := true
+						for i, e := range ph.Edges {
+							es := fi.SysForEdge(ph.Block().Preds[i], ph.Block())
+							et := fi.Term(e)
+							if !es.ProveDiffLE(an.LenTerm(et), limit, 0) {
+								all = false
+								desc = "edge " + fmt.Sprint(i) + ": len(" + short(et.Key()) + ") " + es.Describe(an.LenTerm(et)) + " not bounded by the limit"
+							}
+						}
+						if all {
+							ok2 = true
+							desc = "bound proved on every incoming edge of the line value"
+						}
+					}
+				}
+				c.Check(ok2, "TRUNC", fn, mu.Pos(), an.KeyOf(fn, "line-limit"), "a line is inserted into the log only with len(line) <= logMaxLineBytes (longer lines are cut first)", desc)
+			}
+		}
+	}
+	c.Count("TRUNC", n)
+	c.Floor("TRUNC", 1)
 }
